@@ -18,7 +18,7 @@ import (
 // has progressed (no new stamp, no new line from the client, no change among the goroutines)
 // for c06StallLimit, and a suspected stall is re-run once before it is reported.
 
-const c06StallLimit = 60 * time.Second
+const c06StallLimit = 30 * time.Second
 
 // c06Await polls cond until it holds.  progress returns a token that changes whenever
 // anything at all happened; the wait is abandoned (false) only when the token has not
